@@ -3,7 +3,9 @@
 #include "run.hpp"
 #include <unistd.h>
 #include <signal.h>
+#ifndef SIM_BOTAN
 #include <openssl/rand.h>
+#endif
 #include <tuple>
 
 thread_local Task* tl_task = nullptr;
@@ -247,10 +249,15 @@ static int rm_bytes(unsigned char* buf, int n) {
     R.rng_draws++;
     return 1;
 }
+extern "C" void sim_rng_bytes(unsigned char* buf, size_t n) { rm_bytes(buf, (int)n); }     // the seam of the botan variant (sim/alt/BotanRNG.cpp)
+#ifndef SIM_BOTAN
 static int rm_seed(const void*, int) { return 1; }
 static int rm_add(const void*, int, double) { return 1; }
 static int rm_status(void) { return 1; }
 static void rm_cleanup(void) {}
 static RAND_METHOD g_meth = {rm_seed, rm_bytes, rm_cleanup, rm_add, rm_bytes, rm_status};
 void rng_install(uint64_t seed) { g_rand.seed(seed); RAND_set_rand_method(&g_meth); }
+#else
+void rng_install(uint64_t seed) { g_rand.seed(seed); }
+#endif
 void rng_reseed(uint64_t seed) { g_rand.seed(seed); }
